@@ -6,7 +6,7 @@ from ..refs import contentline as R2, fold as R3
 
 ID = "C08"
 ALPHABET = ["a", ",", ";", ":", "=", "'", "^", " ", "\\", "%", "2", "C", "n", "’", "ä"]
-NAMES = ["CN", "ROLE", "X-A", "x-b1", "Dir", "MEMBER", "altrep", "LANGUAGE", "x-long-name-123", "SENT-BY", "X-É".encode("ascii", "ignore").decode() or "X-E"]
+NAMES = ["CN", "ROLE", "X-A", "x-b1", "Dir", "MEMBER", "altrep", "LANGUAGE", "x-long-name-123", "SENT-BY", "3D-MODEL", "007-x", "1", "X-É".encode("ascii", "ignore").decode() or "X-E"]
 RULE = ("parameter maps: values over the 15-symbol alphabet {a , ; : = ' ^ SP \\ % 2 C n U+2019 a-umlaut} exhaustive up to length 3, each as scalar and "
         "inside 2-4 item lists at every position, on three paths (Parameters.to_ical/from_ical, Contentline.from_parts/parts, property of a component through "
         "to_ical/from_ical); the empty map, and parameter-less neighbour properties of the component that must come back with empty maps; seeded random printable-Unicode values, 0-6 parameters per map, names over RFC token characters in random case, empty "
